@@ -9,6 +9,7 @@ ENGINES = [
     {"name": "memory driver", "path": "drivers/mem_driver.cpp", "serves_properties": ["C14"], "kind_free_text": "history BFS on TbfMemoryBlock + view trees over byte copies"},
     {"name": "tsm/periodic driver", "path": "drivers/tsmper_driver.cpp", "serves_properties": ["C09", "C10"], "kind_free_text": "enumeration of source/target patterns and periodic configurations with the exact kernel"},
     {"name": "configuration units", "path": "drivers/config_tu.cpp, config_selecter.cpp, config_norhs.cpp, config_hilbert_only.cpp", "serves_properties": ["C19"], "kind_free_text": "one translation unit per documented configuration"},
+    {"name": "numeric driver", "path": "drivers/num_driver.cpp", "serves_properties": ["C04", "C05"], "kind_free_text": "numerical kernels vs long double direct sums over an enumerated lattice"},
     {"name": "E6 runner", "path": "tools/check.py", "serves_properties": [], "kind_free_text": "builds drivers from /repo, runs slices on all cores, merges, applies known_findings.json, writes evidence and replays"},
 ]
 NOTES = "See DESIGN.md. All checks rebuild their drivers from /repo/src on every run; scratch output only under /verif/build."
@@ -64,5 +65,13 @@ CLAIMED["C18"] = {"engine": "tree driver + E3 schedule explorer", "text": "Count
 CLAIMED["C19"] = {"engine": "configuration units", "text": "The finite cross product of documented template configurations is enumerated as translation units; a unit that fails to compile is a violation, a unit that compiles runs the C01/C06/C13 oracles on a small fixed space.", "design_ref": "DESIGN.md section 5 C19",
     "note": "trusted: g++ 12 as the only front end; Specx/StarPU through mock headers", "technique": "exhaustive enumeration of a finite configuration lattice (one translation unit per configuration) + bounded-exhaustive oracle runs"}
 
+def _num(text, ref):
+    return {"engine": "numeric driver", "text": text, "design_ref": ref,
+            "note": "trusted: x87 long double reference; bounds are empirical constants (3 x measured worst case on the delivered tree); only the enumerated particle sets/boxes/heights are covered",
+            "technique": "exhaustive enumeration of a finite lattice of (order, height, box, particle set, grouping, executor/schedule) on the real kernels against an extended-precision direct sum"}
+
+CLAIMED["C04"] = _num("Rotation kernel over the enumerated lattice of orders, heights 1..6, three boxes, five deterministic particle sets with face/edge/cluster motifs, groupings and executors (OpenMP under named schedules of the mock runtime); error vs a long double direct sum below per-order bounds, shrinking with the order, stable to rounding across groupings/executors, linear in the charges.", "DESIGN.md section 5 C04, section 12")
+CLAIMED["C05"] = _num("Uniform kernel over the same lattice (orders 3..8), including delivery of a parent's children in several batches (block size 1) vs one.", "DESIGN.md section 5 C05, section 12")
+
 _pending = "check not built yet in this round (planned, see DESIGN.md section 11); not claimed until it runs end to end"
-NOT_APPLICABLE = {p: _pending for p in ["C04", "C05", "C15"]}
+NOT_APPLICABLE = {p: _pending for p in ["C15"]}
